@@ -92,9 +92,11 @@ def strict_loads(text: str) -> Tuple[bool, Any]:
 class MethodModel:
     """What the reference needs to know about a registered method."""
 
-    def __init__(self, signature: inspect.Signature, body: Callable[..., Any]):
+    def __init__(self, signature: inspect.Signature, body: Callable[..., Any],
+                 validate: Optional[Callable[[Dict[str, Any]], bool]] = None):
         self.signature = signature
         self.body = body
+        self.validate = validate   # schema / type validation of the bound arguments, if a validator is attached
 
 
 def _err(id_: Any, code: int, message: Any = OPEN, data: Any = OPEN) -> Dict[str, Any]:
@@ -114,8 +116,10 @@ def element_outcome(req: Dict[str, Any], methods: Dict[str, MethodModel], unset:
     args = params if isinstance(params, list) else []
     kwargs = params if isinstance(params, dict) else {}
     try:
-        model.signature.bind(*args, **kwargs)
+        bound = model.signature.bind(*args, **kwargs)
     except TypeError:
+        return (_err(id_, INVALID_PARAMS) if is_call else None), None
+    if model.validate is not None and not model.validate(dict(bound.arguments)):
         return (_err(id_, INVALID_PARAMS) if is_call else None), None
     execution = (name, params)
     try:
